@@ -1,9 +1,30 @@
 let show_getop (((o, d), pc), ok) =
   "(" ^ show_n o ^ " " ^ show_option show_bytes d ^ " " ^ show_nat pc ^ " " ^ show_bool ok ^ ")"
+(* Coq strings <-> OCaml strings *)
+let char_of_ascii (Ascii (b0,b1,b2,b3,b4,b5,b6,b7)) =
+  let v b k = if b then 1 lsl k else 0 in
+  Char.chr (v b0 0 + v b1 1 + v b2 2 + v b3 3 + v b4 4 + v b5 5 + v b6 6 + v b7 7)
+let ascii_of_char c =
+  let n = Char.code c in let b k = (n lsr k) land 1 = 1 in
+  Ascii (b 0, b 1, b 2, b 3, b 4, b 5, b 6, b 7)
+let rec ocaml_of_coq_string = function EmptyString -> "" | String (a, r) -> String.make 1 (char_of_ascii a) ^ ocaml_of_coq_string r
+let coq_of_ocaml_string s =
+  let r = ref EmptyString in
+  for i = String.length s - 1 downto 0 do r := String (ascii_of_char s.[i], !r) done; !r
+let hex_of_string s = let b = Buffer.create 16 in
+  String.iter (fun c -> Buffer.add_string b (Printf.sprintf "%02x" (Char.code c))) s; Buffer.contents b
+let string_of_hex h = String.init (String.length h / 2) (fun i -> Char.chr (hexval h.[2*i] * 16 + hexval h.[2*i+1]))
+let show_tok = function TName s -> "s" ^ hex_of_string (ocaml_of_coq_string s) | THex d -> show_bytes d
+(* token argument: "s<hex of name>" or "x<hex of data>" *)
+let arg_tok t = if String.length t > 0 && t.[0] = 's'
+  then TName (coq_of_ocaml_string (string_of_hex (String.sub t 1 (String.length t - 1))))
+  else THex (arg_bytes t)
 let dispatch f args = match f, args with
   | "int_to_script_bytes", [v] -> show_outcome show_bytes (int_to_script_bytes (arg_z v))
   | "int_from_script_bytes", [s; m] -> show_outcome show_z (int_from_script_bytes (arg_bytes s) (arg_bool m))
   | "compile_push_data", [d] -> show_outcome show_bytes (btc_compile_push_data (arg_bytes d))
   | "get_opcode", [s; pc; m] -> show_outcome show_getop (btc_get_opcode (arg_bytes s) (arg_nat pc) (arg_bool m))
+  | "disassemble", [s] -> show_outcome (show_list show_tok) (disassemble (arg_bytes s))
+  | "compile", [ts] -> show_outcome show_bytes (compile (arg_list arg_tok ts))
   | _ -> failwith ("unknown function " ^ f)
 let () = main_loop dispatch
